@@ -30,7 +30,12 @@ Check(line, ev) ==
     [] ev.e = "pend"  -> Chk(line, held = {}, "C13.releasedonce", <<"still held at the end", Cardinality(held)>>)
     [] ev.e = "presp" -> Bump(4) /\ Chk(line, ev.ok, "C13.ownpayload", <<ev.what>>)
     [] ev.e = "pbar"  -> Bump(5) /\ Chk(line, ev.stuck = 0, "C13.neverblocks", <<ev.k, ev.m, ev.stuck>>)
-    [] ev.e = "pdbl"  -> Bump(6) /\ Chk(line, ev.secondErr /\ ev.rels = 1, "C13.releasedonce", <<"second Close", ev.rels>>)
+    [] ev.e = "pdbl"  -> /\ Bump(6) /\ Chk(line, ev.secondErr /\ ev.rels = 1, "C13.releasedonce", <<"second Close", ev.rels>>)
+                         \* nothing touches the compressor after it went back (a Flush after Close, say)
+                         /\ Chk(line, ev.lateUse = 0, "C13.useafterrelease", <<"after Close", ev.lateUse>>)
+    \* the provider alone under contention: no object handed out while in use, nobody blocked
+    [] ev.e = "pstress" -> /\ Chk(line, ev.shared = 0, "C13.exclusive", <<ev.provider, ev.shared, ev.ops>>)
+                           /\ Chk(line, ev.stuck = 0, "C13.neverblocks", <<ev.provider, "stress">>)
     [] OTHER -> TRUE
 
 Init == l = 1 /\ held = {}
